@@ -31,7 +31,7 @@ def fn(name, body):
 
 def H(n, d):
     # hashbrown's probe loops end in the first group for these tiny tables; the unwinding assertions prove it
-    return Harness(n, d, unwind=5, cap_s=900, mem_gb=8,
+    return Harness(n, d, unwind=5, cap_s=900, mem_gb=8, typed_heap="big",
                    unwindset=[(r"hashbrown::raw::RawTableInner::(find_inner|find_or_find_insert_index_inner|find_insert_index|fix_insert_index)", 2),
                               (r"simd_bitmask_impl", 17), (r"^c09::", 8), (r"sip::Hasher", 3), (r"^memcmp$|^memcpy$", 10)])
 
